@@ -23,6 +23,18 @@ CLAIMED = {
         note=TRUST + "Shapes bounded (legs m<=5/8, sectors n<=3/4); non-integer constructor arguments only by a bounded enumerated check.",
         technique='AST-to-SMT symbolic execution of the real functions against sidecar contracts; z3 with cvc5 fallback; native replay of counter-models',
     ),
+    'C20': dict(
+        category='proof',
+        text=("Contracts on the real geometry classes (SquareLattice, CheckerboardLattice, RectangularUnitcell, TriangularLattice) "
+              "and the Lattice container, interpreted from the working tree: neighbour lookup equals its specification and is "
+              "mutually inverse, None exactly at open edges, nn_bond_dirn returns/raises exactly as specified, site2index invariant "
+              "under the lattice periods and only those, f_ordered a total order, container = map modulo site2index with patch "
+              "shadowing -- each discharged by z3 for ALL integer sites, shifts and period multiples at every enumerated lattice "
+              "size; listed sites/bonds are finite and checked exhaustively by evaluating the interpreted code."),
+        design_ref='DESIGN.md §5 C20',
+        note=TRUST + "Lattice dims enumerated (1..6 quick, 1..8 thorough). RectangularUnitcell pattern space only by a bounded exhaustive enumeration (runtime-checked, reported separately). Known finding F2 (cylinder wrap bonds) listed in known_findings.json.",
+        technique='AST-to-SMT symbolic execution of the real methods against sidecar contracts; z3 with cvc5 fallback; native replay of counter-models',
+    ),
 }
 
 NOT_APPLICABLE = {
